@@ -693,12 +693,8 @@ func c16Gen(g *hx.Gen) {
 		alpha = append(alpha, "S:"+c, "R:"+c)
 	}
 	alpha = append(alpha, "X", "G1", "G3")
-	maxLen := 3
-	if g.Thorough() {
-		maxLen = 4
-	}
-	var rec func(prefix []string, n int)
-	rec = func(prefix []string, n int) {
+	var rec func(alpha []string, prefix []string, n int)
+	rec = func(alpha []string, prefix []string, n int) {
 		if len(prefix) > 0 {
 			g.Case(prefix...)
 		}
@@ -710,10 +706,32 @@ func c16Gen(g *hx.Gen) {
 			if len(prefix) == 0 && a[0] != 'S' && a != "R:f1/-/" && a != "X" && a != "G1" {
 				continue
 			}
-			rec(append(append([]string(nil), prefix...), a), n-1)
+			rec(alpha, append(append([]string(nil), prefix...), a), n-1)
 		}
 	}
-	rec(nil, maxLen)
+	rec(alpha, nil, 3)
+	if g.Thorough() {
+		// length 4 over the core of the alphabet
+		var core []string
+		for _, c := range []string{"f1/-/", "f1,n2/-/", "f1,p2/-/", "f1/setup/", "f1/startup/", "f1,f2!/-/", "f1/-/r"} {
+			core = append(core, "S:"+c, "R:"+c)
+		}
+		core = append(core, "X", "G1", "G3")
+		var rec4 func(prefix []string, n int)
+		rec4 = func(prefix []string, n int) {
+			if n == 0 {
+				g.Case(prefix...)
+				return
+			}
+			for _, a := range core {
+				if len(prefix) == 0 && a[0] != 'S' {
+					continue
+				}
+				rec4(append(append([]string(nil), prefix...), a), n-1)
+			}
+		}
+		rec4(nil, 4)
+	}
 
 	// seeded structured random: longer histories, more servers, all flags
 	N := 1500
